@@ -158,13 +158,4 @@ def canaryPreds : Preds CanaryW where
      | none => false) &&
     w'.w.deps.any (fun d => RV.Oracle.CtlCanary.owned d && !d.deleting)
 
-/-! ### a ReplicaSet reference -/
-
-def rsPreds : Preds Bool where
-  ready := fun _ _ => false
-  released := fun _ _ => true
-  exposure := fun _ => 0
-  allowed := fun _ _ => 0
-  claimed := fun _ _ _ => false
-
 end RV.Oracle.ExecutorX
